@@ -1,6 +1,7 @@
 #define _GNU_SOURCE
 #include "vhrt.h"
 #include <errno.h>
+#include <signal.h>
 #include <inttypes.h>
 #include <stdlib.h>
 #include <string.h>
@@ -416,9 +417,29 @@ void ev_close_obj(void)
 	dtop--;
 	fputc('}', ev_out);
 }
+/* watchdog: a call into json-c that does not come back (a probe loop without an exit, ...) must end the process
+ * with a recognisable status instead of stalling the check: re-armed at every recorded event */
+static void vh_watchdog(int sig)
+{
+	(void)sig;
+	static const char msg[] = "VH-WATCHDOG: no event recorded for too long - the implementation does not return\n";
+	if (write(2, msg, sizeof msg - 1) < 0)
+		_exit(86);
+	_exit(86);
+}
 void ev_end(void)
 {
+	static int armed, secs;
 	fputs("}\n", ev_out);
 	fflush(ev_out); /* a dying implementation must not take recorded events with it */
 	ev_count++;
+	if (!armed)
+	{
+		const char *w = getenv("VH_WATCHDOG");
+		secs = w ? atoi(w) : 120;
+		signal(SIGALRM, vh_watchdog);
+		armed = 1;
+	}
+	if (secs > 0)
+		alarm((unsigned)secs);
 }
